@@ -535,6 +535,10 @@ def annotate_file(src, fspec, relfile):
                 drops.append((toks2[f2.body_open].start, toks2[f2.body_close].end))
         for a, b in sorted(drops, reverse=True):
             out = out[:a] + "{ unimplemented!() }" + out[b:]
+        if not fspec.wrap:
+            # facade file (not inside verus!): the contracts and rewrites live ONLY in the twins; the file's own
+            # text stays exactly as it is in the repository
+            out = src
         bottom = bottom + "\n" + "\n".join(twin_texts)
     if fspec.wrap and fspec.wrap_from:
         ms = list(re.finditer(fspec.wrap_from, out, re.M))
